@@ -45,34 +45,9 @@ func TestReplay_OptionalFieldSwallowsConstructionFailure(t *testing.T) {
 
 // ---- open findings without an obligation of their own: one concrete input each (index.json: kind "bounded", one entry per test) ----
 
-type ofIface interface{ Hello() }
 type ofDB struct{ closes int32 }
 
 func (d *ofDB) Close() error { atomic.AddInt32(&d.closes, 1); return nil }
-func (*ofDB) Hello()         {}
-
-// C10: one object returned under two outputs of one constructor (its concrete type and an interface) is tracked once per output
-// and closed twice.
-func TestOpen_SameObjectUnderTwoOutputsIsClosedTwice(t *testing.T) {
-	db := &ofDB{}
-	c := NewCollection()
-	if err := c.AddScoped(func() (*ofDB, ofIface) { return db, db }); err != nil {
-		t.Fatal(err)
-	}
-	p, err := c.Build()
-	if err != nil {
-		t.Fatal(err)
-	}
-	sc, _ := p.CreateScope(context.Background())
-	if _, err := Resolve[*ofDB](sc); err != nil {
-		t.Fatal(err)
-	}
-	sc.Close()
-	p.Close()
-	if n := atomic.LoadInt32(&db.closes); n != 1 {
-		t.Errorf("REPLAY-CONFIRMED open[same_object_under_two_outputs]: the object returned as *ofDB and as ofIface by one constructor was closed %d times, want 1", n)
-	}
-}
 
 type ofCfg struct{}
 type ofStore struct{ cfg *ofCfg }
